@@ -207,7 +207,7 @@ def judge_sequence(ctx, J_, options, now, leeway, claim_sets):
         ctx.violation("options-modified", "validate() modified the caller's options", {"options": options})
 
 
-NOWS = [0, 1, 10**9, 2**31, 2**40]
+NOWS = [0, 1, 10**9, 2**31, 2**40, 10**9 + 0.75, 1700000000.25, 0.5]   # a caller may hand over time.time() as it is
 LEEWAYS = [0, 1, 60, 10**6]
 VALUES = [None, True, False, 0, 1, -1, 7, 1.5, "", "a", "joe", "https://example.com", ["a"], ["a", "b"], [], {"a": 1}, {}, [1], 2**70]
 NAMES = ["iss", "sub", "aud", "exp", "nbf", "iat", "jti", "scope", "x", "validate", "options", "now", "leeway", "check_value"]
@@ -232,6 +232,12 @@ def run_shard(ctx):
                     judge(ctx, j, {name: v}, {name: {"values": [base + d + 1]}}, now, lw, "time")
             judge(ctx, j, {name: base + 0.5}, {}, now, lw, "time")
             judge(ctx, j, {name: base - 0.5}, {}, now, lw, "time")
+            if isinstance(now, float):
+                # integer claim values on either side of a fractional boundary
+                import math
+                for v in (math.floor(base), math.ceil(base), math.floor(base) - 1, math.ceil(base) + 1):
+                    judge(ctx, j, {name: v}, {}, now, lw, "time")
+                    judge(ctx, j, {name: v}, {name: {"essential": True}}, now, lw, "time")
         for v in VALUES:
             judge(ctx, j, {name: copy.deepcopy(v)}, {}, now, lw, "time-type")
     # ---- grid 2: option combinations x value types
@@ -348,8 +354,12 @@ def run_shard(ctx):
             ft.t = rng.choice([0.0, 1.5, 1_700_000_000.75, 2.0**31 + 0.5, 4_000_000_000.25]) + step
             T = int(ft.t)
             for lw in (0, 30):
-                for name, v, expect in (("exp", T - lw - 5, "ExpiredTokenError"), ("exp", T - lw + 5, None), ("nbf", T + lw + 5, "InvalidTokenError"),
-                                        ("nbf", T + lw - 5, None), ("iat", T + lw + 5, "InvalidTokenError"), ("iat", T + lw - 5, None)):
+                # five seconds away from the boundary, and the whole seconds next to a clock that stands between two seconds (T <= clock < T+1):
+                # T+1 is still in the future, T-1 is past, T has been reached
+                tight = [("nbf", T + lw + 1, "InvalidTokenError"), ("iat", T + lw + 1, "InvalidTokenError"), ("nbf", T + lw, None), ("iat", T + lw, None),
+                         ("exp", T - lw - 1, "ExpiredTokenError"), ("exp", T - lw + 1, None)] if ft.t != T else []
+                for name, v, expect in [("exp", T - lw - 5, "ExpiredTokenError"), ("exp", T - lw + 5, None), ("nbf", T + lw + 5, "InvalidTokenError"),
+                                        ("nbf", T + lw - 5, None), ("iat", T + lw + 5, "InvalidTokenError"), ("iat", T + lw - 5, None)] + tight:
                     ctx.ev()
                     before = ft.calls
                     r = call(j.jwt.JWTClaimsRegistry, leeway=lw)
